@@ -479,8 +479,14 @@ func (c absCtx) absReply(m *dns.Msg, q *dns.Msg) string {
 		return strings.Join(p, ",")
 	}
 	opt := "-"
-	if o := m.IsEdns0(); o != nil {
-		opt = fmt.Sprintf("%d/%s/%d/%s", o.UDPSize(), vlib.B(o.Do()), o.Version(), c.absOptions(optOptions(o)))
+	var opts []string
+	for _, rr := range m.Extra {
+		if o, ok := rr.(*dns.OPT); ok {
+			opts = append(opts, fmt.Sprintf("%d/%s/%d/%s", o.UDPSize(), vlib.B(o.Do()), o.Version(), c.absOptions(optOptions(o))))
+		}
+	}
+	if len(opts) > 0 {
+		opt = strings.Join(opts, "|")
 	}
 	fl := letters("q", m.Response, "A", m.Authoritative, "t", m.Truncated, "r", m.RecursionDesired,
 		"R", m.RecursionAvailable, "z", m.Zero, "a", m.AuthenticatedData, "c", m.CheckingDisabled)
